@@ -22,7 +22,7 @@ import (
 
 func init() {
 	registerSuite("bypass-e2e", func(c *suiteCtx) {
-		authorised := defaultUser()                                                                                                                  // groups dev, ops; alice@example.com
+		authorised := defaultUser()                                                                                                                        // groups dev, ops; alice@example.com
 		outsider := idpUser{Sub: "user-9", Email: "mallory@elsewhere.net", EmailVerified: true, Groups: []interface{}{"guests"}, PreferredUser: "mallory"} // fails both kinds of rule
 		cfgs := []proxyCfg{
 			{SkipAuthRoutes: []string{"GET=^/reports/", "POST=^/reports/", "HEAD!=^/api", "DELETE=^/api", "^/open$", "GET=^/open$"}, AllowedGroups: []string{"dev"}},
